@@ -141,7 +141,7 @@ def setup(ctx):
   gin.constant('p.C16AMBIG', 1)
   gin.constant('q.C16AMBIG', 2)
   # (thousands of small files are rewritten: a memory-backed directory where there is one)
-  shm = '/dev/shm' if (os.path.isdir('/dev/shm') and os.access('/dev/shm', os.W_OK | os.X_OK)) else None
+  shm = os.environ.get('VF_SHM_DIR') or ('/dev/shm' if (os.path.isdir('/dev/shm') and os.access('/dev/shm', os.W_OK | os.X_OK)) else None)
   _S['root'] = tempfile.mkdtemp(prefix='vf-c16-', dir=shm)
   import sys
   os.makedirs(os.path.join(_S['root'], 'py'))
